@@ -183,6 +183,39 @@ class C20(SeqCheck):
         return any(x and not x.startswith("0 ") and x != "0" for x in o[1:])
 
 
-REGISTRY = {"C04": C04, "C05": C05, "C06": C06, "C07": C07, "C20": C20}
+class C18(SeqCheck):
+    pid = "C18"
+    diff_is_violation = True
+    harness = "c18"
+    hbin = "h_c18"
+    model_entry = "c18_model"
+    oracle_entry = None
+    quick_n = 2400
+    thorough_n = 60000
+    shards = 12
+    design_ref = "4 (C18)"
+    technique = "Coq proof (conservation invariant over all histories + exact semantics of each scripted impairment) + differential correspondence check"
+    level_text = ("Coq theorems about executable models of Bridge and dpipe: per direction, held + delivered + discarded messages are a "
+                  "permutation of held-before + written for every history (no duplicate, no invention); ReorderNextNWrites queues exactly "
+                  "the reversed group (also when repeated), DropNextNWrites discards exactly n, plain writes are FIFO modulo the filter; "
+                  "dpipe is FIFO with truncation and the two ends close independently. Tied to the code by differential histories: real "
+                  "Bridge (reader goroutine parked, Tick) and real dpipe against the extracted models, every answer compared")
+    level_note = ("trusted: Coq kernel, extraction + driver, harness (the Bridge reader is parked by polling Tick; a read that gets "
+                  "nothing is released through its read deadline); loss chance 0 and no write deadlines; Bridge.Drop with an offset beyond "
+                  "the queue panics in Go and is not issued")
+    rule = ("Bridge: 15-75 operations: writes in both directions (messages of 0..20 bytes, first byte a counter), reads with slices of "
+            "64/5/2/0 bytes, DropNextNWrites, ReorderNextNWrites (1,2,3,4,0; repeated), Drop(offset,n), Reorder, Filter (4 kinds), Len, "
+            "Close, Tick, then both directions drained; dpipe: writes/reads/Close on both ends then drained. non-trivial = at least 3 "
+            "messages delivered; distinct = distinct operation list")
+    assumptions = ["sequential use of the Bridge control methods (they all take br.mutex)"]
+
+    def is_nontrivial(self, conf, ops, obs):
+        o = segs(obs)
+        if conf.strip() == "1":
+            return sum(1 for x in o if x.startswith("0 ") and len(x.split()) >= 2) >= 3
+        return sum(1 for x in o if x.startswith("1 ") and len(x.split()) >= 2) >= 3
+
+
+REGISTRY = {"C04": C04, "C05": C05, "C06": C06, "C07": C07, "C18": C18, "C20": C20}
 
 NOT_CLAIMED = {}
